@@ -50,7 +50,7 @@ func (e *Engine) instantiateLemma(env *SpecEnv, u *Clause) []*Term {
 	}
 	// when the hypotheses of the lemma are already known, its conclusions are assumed one by one
 	// (which lets equalities act as rewrite rules); otherwise the instance is an implication.
-	req := substitute(mkAnd(reqs...), env.st.subst)
+	req := env.st.sub(mkAnd(reqs...))
 	known := req.IsConst() && req.Val.Sign() != 0
 	if !known {
 		known = true
